@@ -1,7 +1,7 @@
 (* C08: saved rules behave identically once loaded (codec part).
    Proofs in Proofs/ArenaProofs.v and Proofs/ArenaMemProofs.v. *)
 From Coq Require Import List NArith Lia.
-From YV Require Import Base.Bytes Model.Arena Proofs.ArenaProofs.
+From YV Require Import Base.Bytes Model.Arena Model.ArenaMem Proofs.ArenaProofs Proofs.ArenaMemProofs.
 Import ListNotations.
 
 (* loading what was saved gives back exactly the saved content: every buffer byte and the whole
@@ -10,3 +10,16 @@ Theorem load_save_roundtrip : forall a : arena,
   wf_arena a = true -> rules_load cfg_current (save cfg_current a) = LOk a.
 Proof. exact load_save_roundtrip_proof. Qed.
 Print Assumptions load_save_roundtrip.
+
+(* the bytes written depend only on the address-free content of the in-memory arena, never on where its
+   buffers happen to live (Model/ArenaMem.v models the arena with absolute pointers) *)
+Theorem saved_bytes_address_free : forall c m m',
+  slots_in (mrelocs m) (mbufs m) -> NoOv (mrelocs m) ->
+  slots_in (mrelocs m') (mbufs m') -> NoOv (mrelocs m') ->
+  abs m = abs m' -> save_mem c m = save_mem c m'.
+Proof. exact save_address_free_proof. Qed.
+Print Assumptions saved_bytes_address_free.
+(* per image (checks/c08.py): wf_arena, layout_cert (every DECLARE_REFERENCE field of the table structs
+   is registered for relocation) and byte-identical re-save by the model.  Not proved: that scanning the
+   loaded rules equals scanning the original for all buffers (no full scan model); that is compared on
+   generated buffers. *)
